@@ -326,7 +326,7 @@ Lemma others_rows_untouched : forall v st o u',
   (forall i t k, o = WOp i t k -> inst_user st i <> Some u') ->
   rows_of (contents (fst (step v st o))) u' = rows_of (contents st) u'.
 Proof.
-  intros v st o u' Hno. destruct o as [u|u|i p ttl|i|dt|i t k]; cbn [step].
+  intros v st o u' Hno. destruct o as [u|u|i p ttl|i|dt|i t k|u]; cbn [step].
   - dm; reflexivity.
   - dm; reflexivity.
   - dm; reflexivity.
@@ -344,6 +344,7 @@ Proof.
     + dm; reflexivity.
     + dm; reflexivity.
     + dm; reflexivity.
+  - dm; reflexivity.
 Qed.
 
 (* ---------- history invariants ---------- *)
@@ -374,7 +375,7 @@ Lemma step_contents : forall v st o row,
   In row (contents (fst (step v st o))) ->
   In row (contents st) \/ In row (add_rec st o (snd (step v st o))).
 Proof.
-  intros v st o row H. destruct o as [u|u|i p ttl|i|dt|i t k]; cbn [step] in *.
+  intros v st o row H. destruct o as [u|u|i p ttl|i|dt|i t k|u]; cbn [step] in *.
   - revert H. dm; cbn; auto.
   - revert H. dm; cbn; auto.
   - revert H. dm; cbn; auto.
@@ -389,6 +390,7 @@ Proof.
               destruct H as [H|[Hr [c0 [n0 [Hrow Hk]]]]]; auto;
               destruct Hk as [Hk|[col0 Hk]]; inversion Hk; subst; right; rewrite Hr; left; reflexivity).
     all: revert H; dm; cbn; auto.
+  - revert H. dm; cbn; auto.
 Qed.
 
 Lemma rows_provenance_gen : forall v ops st row,
@@ -421,7 +423,7 @@ Proof.
   assert (Hsame : In s' (sessions st) -> (exists s, In s (sessions st) /\ s_tok s = s_tok s' /\ s_user s = s_user s') \/
                                        In (s_tok s', s_user s') (grant_rec st o (snd (step v st o)))).
   { intro. left. exists s'. auto. }
-  destruct o as [u|u|i p ttl|i|dt|i t k].
+  destruct o as [u|u|i p ttl|i|dt|i t k|u].
   - cbn [step] in *. revert H Hsame. dm; cbn; auto.
   - cbn [step] in *. revert H Hsame. dm; cbn; auto.
   - cbn [step] in *. unfold grant_rec, inst_user in *. destruct (nth_error (insts st) i) as [[u h]|]; auto.
@@ -434,6 +436,7 @@ Proof.
   - auto.
   - destruct (wop_frame v st i t k) as [_ [_ [_ [_ [_ [Hs|Hs]]]]]]; rewrite Hs in H; auto.
     left. apply refresh_src in H. destruct H as [s [Hin [Ht [Hu _]]]]. exists s. auto.
+  - cbn [step] in *. revert H Hsame. dm; cbn; auto.
 Qed.
 
 Lemma sessions_granted_gen : forall v ops st s',
@@ -469,7 +472,7 @@ Lemma step_keys : forall st o row,
   In row (keys (fst (step Fixed st o))) ->
   In row (keys st) \/ In row (key_rec st o (snd (step Fixed st o))).
 Proof.
-  intros st o row H. destruct o as [u|u|i p ttl|i|dt|i t k]; cbn [step] in *.
+  intros st o row H. destruct o as [u|u|i p ttl|i|dt|i t k|u]; cbn [step] in *.
   - revert H. dm; cbn; auto.
   - revert H. dm; cbn; auto.
   - revert H. dm; cbn; auto.
@@ -491,6 +494,7 @@ Proof.
       apply find_session_some in Hs. destruct Hs as [Hin [Ht Hl]].
       rewrite (not_foreign_own _ _ _ _ _ Hf Hin Ht Hl). reflexivity.
     + revert H. dm; cbn; auto.
+  - revert H. dm; cbn; auto.
 Qed.
 
 Lemma keys_provenance_gen : forall ops st row,
@@ -512,7 +516,7 @@ Lemma step_grant : forall v st o,
   (exists u, grant_rec st o (snd (step v st o)) = [(next_tok st, u)] /\
              next_tok (fst (step v st o)) = next_tok st + 1).
 Proof.
-  intros v st o. destruct o as [u|u|i p ttl|i|dt|i t k].
+  intros v st o. destruct o as [u|u|i p ttl|i|dt|i t k|u].
   - left. cbn [step]. dm; auto.
   - left. cbn [step]. dm; auto.
   - cbn [step]. unfold grant_rec, inst_user. destruct (nth_error (insts st) i) as [[u h]|]; auto.
@@ -521,6 +525,7 @@ Proof.
   - left. cbn [step]. dm; auto.
   - left. auto.
   - left. split; [reflexivity|]. apply (wop_frame v st i t k).
+  - left. cbn [step]. dm; auto.
 Qed.
 
 Lemma grants_fresh_gen : forall v ops st,
@@ -584,7 +589,7 @@ Qed.
 
 Lemma step_uniq : forall v st o, uniq_live st -> uniq_live (fst (step v st o)).
 Proof.
-  intros v st o H. destruct o as [u|u|i p ttl|i|dt|i t k].
+  intros v st o H. destruct o as [u|u|i p ttl|i|dt|i t k|u].
   - cbn [step]. dm; exact H.
   - cbn [step]. dm; exact H.
   - cbn [step]. destruct (nth_error (insts st) i) as [[u h]|]; [|exact H].
@@ -614,6 +619,7 @@ Proof.
     + apply refresh_src in H1. apply refresh_src in H2.
       destruct H1 as [a [Ha [Ta [Ua La]]]]. destruct H2 as [b [Hb [Tb [Ub Lb]]]].
       rewrite <- Ta, <- Tb. apply H; auto. congruence.
+  - cbn [step]. dm; exact H.
 Qed.
 
 Lemma run_uniq : forall v ops st, uniq_live st -> uniq_live (fst (run v st ops)).
@@ -661,3 +667,10 @@ Proof.
   destruct (find_session (sessions st) (now st) t); [|reflexivity].
   rewrite <- (key_id_taken_own _ _ _ H). destruct (key_id_taken (keys st) kn); reflexivity.
 Qed.
+
+(* UpdateProfile (and CreateProfile over an existing profile) leaves the whole state as it was *)
+Lemma update_same : forall v st u, fst (step v st (WUpdate u)) = st.
+Proof. intros. cbn [step]. destruct (existsb (N.eqb u) (profiles st)); reflexivity. Qed.
+
+Lemma recreate_same : forall v st u, existsb (N.eqb u) (profiles st) = true -> step v st (WCreate u) = (st, RErr).
+Proof. intros v st u H. cbn [step]. rewrite H. reflexivity. Qed.
